@@ -15,14 +15,14 @@ Proof.
   exists q1, q2. split; [exact E1|]. split; [exact E2|congruence].
 Qed.
 
-Theorem schema_layout_independent : forall d items in1 in2 ix1 ix2 bi,
+Theorem schema_layout_independent : forall d (dk1 dk2 : str -> kind) items in1 in2 ix1 ix2 bi,
+  (forall s, dk1 s = String_ \/ dk1 s = BlockString) -> (forall s, dk2 s = String_ \/ dk2 s = BlockString) ->
   Forall (item_wok d) items -> (items <> [] \/ d F_S7 = true) ->
-  toks d in1 (flat_map flat_item items) -> toks d in2 (flat_map flat_item items) ->
+  toks d in1 (flat_map (flat_item dk1) items) -> toks d in2 (flat_map (flat_item dk2) items) ->
   exists x1 x2, parseSchema d 0 ix1 bi in1 = POk x1 /\ parseSchema d 0 ix2 bi in2 = POk x2 /\ erase_sdoc x1 = erase_sdoc x2.
 Proof.
-  intros d items in1 in2 ix1 ix2 bi Hw Hne H1 H2.
-  destruct (parseSchema_complete_entry d items in1 ix1 bi Hw Hne H1) as [x1 [E1 Q1]].
-  destruct (parseSchema_complete_entry d items in2 ix2 bi Hw Hne H2) as [x2 [E2 Q2]].
+  intros d dk1 dk2 items in1 in2 ix1 ix2 bi K1 K2 Hw Hne H1 H2.
+  destruct (parseSchema_complete_entry d dk1 items in1 ix1 bi K1 Hw Hne H1) as [x1 [E1 Q1]].
+  destruct (parseSchema_complete_entry d dk2 items in2 ix2 bi K2 Hw Hne H2) as [x2 [E2 Q2]].
   exists x1, x2. split; [exact E1|]. split; [exact E2|congruence].
 Qed.
-
